@@ -83,6 +83,10 @@ func racePass(c *engine.Ctx) {
 
 	var wg sync.WaitGroup
 
+	// the children are watched themselves
+	c.AwaitingChild(true)
+	defer c.AwaitingChild(false)
+
 	for i, k := range ks {
 		wg.Add(1)
 
